@@ -855,6 +855,30 @@ Qed.
 Lemma nullable_owned m e : wf m -> owned m e -> (rnul e = true <-> L e []).
 Proof. intros W Ho. apply nullable_correct. apply (wf_terms m W); auto. Qed.
 
+(* what [wf] says, field by field (a restatement used by Properties/C01.v) *)
+Lemma wf_meaning : forall m, wf m ->
+  counter m = N.of_nat (length (id2re m)) /\
+  Nat.Even (length (id2re m)) /\
+  (forall i e, nth_error (id2re m) i = Some e -> rid e = N.of_nat i) /\
+  (forall k e, In (k, e) (tbl m) -> key_of (rnode e) = k /\ owned m e) /\
+  (forall e, owned m e -> lookup (key_of (rnode e)) (tbl m) = Some e) /\
+  (forall e c, owned m e -> In c (children (rnode e)) -> owned m c /\ rid c < rid e) /\
+  (forall e, owned m e -> wf_term e) /\
+  (forall i x y, Nat.Even i -> nth_error (id2re m) i = Some x -> nth_error (id2re m) (S i) = Some y ->
+     (i <> 2%nat -> i <> 4%nat -> rnode y = NCompl x) /\
+     forall w, goodw w -> (L y w <-> ~ L x w)) /\
+  (m_sigma m = mk_node 0 (NRange (0, MAXC)) /\ m_empty m = mk_node 2 NEmpty /\
+   m_full m = mk_node 3 (NLoop (m_sigma m) lr_star) /\ m_eps m = mk_node 4 NEps /\
+   m_splus m = mk_node 5 (NLoop (m_sigma m) lr_plus) /\
+   owned m (m_sigma m) /\ owned m (m_empty m) /\ owned m (m_full m) /\ owned m (m_eps m) /\
+   owned m (m_splus m)).
+Proof.
+  intros m [H1 H2 H3 H4 H5 H6 H7 H8 [C1 C2 C3 C4 C5 O1 O2 O3 O4 O5] _].
+  split; [exact H1|]. split; [exact H2|]. split; [exact H3|]. split; [exact H4|].
+  split; [exact H5|]. split; [exact H6|]. split; [exact H7|]. split; [exact H8|].
+  repeat split; assumption.
+Qed.
+
 Print Assumptions make_wf.
 Print Assumptions new_mgr_wf.
 Print Assumptions complement_ok.
